@@ -95,6 +95,11 @@ theorem gc_alloc_structure_tie :
     C05.gcConds = expectedGcConds ∧ C05.gcAssigns = expectedGcAssigns ∧ C05.gcCallSeq = expectedGcCallSeq ∧
     C05.allocConds = expectedAllocConds ∧ C05.allocAssigns = expectedAllocAssigns := by decide
 
+/-- `page.Factory.TruncatePages` removes a page iff its ID (the map key) is below the bound -/
+theorem truncate_pages_tie :
+    C05.truncatePagesConds = expectedTruncatePagesConds ∧ C05.truncatePagesLoops = expectedTruncatePagesLoops ∧
+    C05.truncatePagesCallSeq = expectedTruncatePagesCallSeq := by decide
+
 /-! ## sequential histories -/
 
 /-- Every message whose Put returned success is read back byte for byte under its own
@@ -283,6 +288,15 @@ example :
     get (run St.init (pre ++ [.putFail msgB64, .put msgA, .put msgB64])) 1 = .ok msgA.bytes ∧
     get (run St.init (pre ++ [.putFail msgB64, .put msgA, .put msgB64])) 2 = .ok msgB64.bytes := by
   refine ⟨by decide, by decide, by decide⟩
+
+/-- repeated ack + GC rounds on factories whose smallest page id is already above 0 (three
+data pages; second and third GC; reopen of a truncated queue, then GC again) -/
+example :
+    let ops : List Op := [.put (Msg.gen 0 134217000), .put (Msg.gen 1 134217000), .put (Msg.gen 2 134217000),
+      .ack 0, .gc, .gc, .put msgA, .ack 1, .gc, .reopen, .gc, .put msgB]
+    (run St.init ops).mem.dataLive = [2, 1] ∧ get (run St.init ops) 3 = .ok msgA.bytes ∧
+      get (run St.init ops) 4 = .ok msgB.bytes ∧ getLoc (run St.init ops) 2 = .loc ⟨2, 0, 134217000⟩ := by
+  refine ⟨by decide, by decide, by decide, by decide⟩
 
 /-! ## the property does not hold for the three-step structure -/
 
